@@ -38,8 +38,11 @@ func (v *Vue) evaluate(ctx VueContext, nodes []*html.Node, depth int) ([]*html.N
 		case html.ElementNode:
 			tag := node.Data
 
-			// Check for v-once early - skip if already rendered
-			if helpers.HasAttr(node, "v-once") {
+			// Check for v-once early - skip if already rendered. An element that also
+			// carries v-for is tested per iteration (each iteration is evaluated again
+			// without the v-for): marking it here would make its own first iteration
+			// look like a repeat.
+			if helpers.HasAttr(node, "v-once") && !helpers.HasAttr(node, "v-for") {
 				vSeenID := helpers.GetAttr(node, "v-once-id")
 				if ctx.seen[vSeenID] {
 					// This v-once element has already been rendered, skip it
